@@ -202,8 +202,10 @@ Record st_rel (fixed : bool) (rf : raw_file) (st : symtab) : Prop := mk_st_rel {
   sr_origins : st_origins st = rf_origins rf;
   sr_pubs : st_publics st = sort_by pub_lt (rf_publics rf);
   sr_funcs : st_funcs st = into_rangemap_safe_p func_eqb (fin_list fixed (rf_funcs rf));
-  sr_fd : exists wl, Forall (win_prov (rf_win_fd rf)) wl /\ st_win_fd st = into_rangemap_safe_p win_eqb wl;
-  sr_fpo : exists wl, Forall (win_prov (rf_win_fpo rf)) wl /\ st_win_fpo st = into_rangemap_safe_p win_eqb wl
+  sr_fd : exists wl, win_collect [] (rf_win_fd rf) = Ret wl /\ Forall (win_prov (rf_win_fd rf)) wl /\
+                     st_win_fd st = into_rangemap_safe_p win_eqb wl;
+  sr_fpo : exists wl, win_collect [] (rf_win_fpo rf) = Ret wl /\ Forall (win_prov (rf_win_fpo rf)) wl /\
+                      st_win_fpo st = into_rangemap_safe_p win_eqb wl
 }.
 
 Lemma build_ok fixed rf : wf_file rf -> exists st, build_symtab_gen fixed rf = Ret st /\ st_rel fixed rf st.
